@@ -1,6 +1,6 @@
 (** C03 — path shape.  Property theorems only; proofs live in Proofs/. *)
 From Coq Require Import List ZArith Bool.
-From TR Require Import Eng.Engine Eng.Parallel Eng.Timed Spec.C03 Spec.C07 Proofs.EngShape Proofs.EngParallel Proofs.EngCorollaries.
+From TR Require Import Eng.Engine Eng.Parallel Eng.Timed Spec.C03 Spec.C07 Proofs.EngShape Proofs.EngParallel Proofs.EngCorollaries Generated.GoValidate Proofs.GoTieValidate.
 Import ListNotations.
 Open Scope Z_scope.
 
@@ -47,3 +47,15 @@ Example C03_example :
   run_hops 1 5 [mkProbe 3 7 30 true; mkProbe 1 11 10 false; mkProbe 2 7 25 true; mkProbe 1 12 50 false]
   = Done [mkHop 1 (Some 11) 10 false; mkHop 2 (Some 7) 25 true].
 Proof. reflexivity. Qed.
+
+(** tie kind A, regenerated on every run by tools/goextract/exprs.go: validateProbe as it stands in the source is the model's [valid_probe], for every TTL and every range *)
+Theorem C03_validateProbe_tied first last q :
+  go_common_TracerouteParams_validateProbe false (p_ttl q) first last = valid_probe first last q.
+Proof. exact (@go_validateProbe_is_valid_probe first last q). Qed.
+Print Assumptions C03_validateProbe_tied.
+
+(** ... and a nil reply is rejected *)
+Theorem C03_validateProbe_rejects_nil t first last : go_common_TracerouteParams_validateProbe true t first last = false.
+Proof. exact (@go_validateProbe_rejects_nil t first last). Qed.
+Print Assumptions C03_validateProbe_rejects_nil.
+
